@@ -3,3 +3,6 @@ import DefconModel.Util.AL
 import DefconModel.Notify
 import DefconModel.AllDrivers
 import DefconModel.Props.C04
+import DefconModel.Layer
+import DefconModel.Props.C07
+import DefconModel.Props.C09
